@@ -30,5 +30,6 @@ pub mod __private {
 #[doc(hidden)]
 pub mod verif_hooks {
     pub use crate::routing::verif_get_locale_from_path as get_locale_from_path;
+    pub use crate::routing::verif_get_new_path as get_new_path;
     pub use crate::routing::verif_localize_path as localize_path;
 }
